@@ -257,7 +257,7 @@ def make(kind, n, strict):
     # years, or a window around zero (0 is a label like any other, and not at either end of the span)
     span = list(range(2000, 2000 + n)) if (n + len(kind)) % 3 else list(range(-2, n - 2))
     # the object's own span: that list, or a NumPy array of the same labels (which has neither .index() nor .get_loc())
-    cspan = np.array(span) if (n + len(kind)) % 2 and n else span
+    cspan = np.array(span) if (n + len(kind)) % 2 and n else (range(span[0], span[-1] + 1) if (n + len(kind)) % 4 == 0 and n else span)
     if kind == 'container':
         c = monitored(VectorContainer)(cspan, strict=strict)
         dtypes = {}
@@ -399,6 +399,12 @@ def step(ctx, c, twin, dtypes, hist, kind, n, span, op, optag, opval_factory, ta
         if p_out != outcome or not series_same(after, snap(plain_twin)):
             ctx.violation('series-shape', f'{kind}: {desc} -> {outcome}; the same operation with the plain Python value {PLAIN_EQUIVALENT[optag]()!r} -> {p_out}; series equal: {series_same(after, snap(plain_twin))}', case)
             return False
+    if op == 'label' and target in before['index'] and extra not in span:
+        # a label that is not in the span addresses no period: nothing to assign to
+        ctx.count('absent_label_assignments')
+        if outcome == 'ok' or not series_same(before, after):
+            ctx.violation('failed-assignment-mutates', f'{kind}: {desc}: the label is not in the span {span[:3]}..{span[-1:]} -> {outcome}; series changed: {not series_same(before, after)}', case)
+            return False
     if op == 'lslice' and target in before['index'] and isinstance(operand, (list, tuple, range, np.ndarray)) and np.ndim(operand) == 1 and len(operand) >= 2:
         # a label slice addresses the periods from its first to its last label inclusive (open ends: the span's ends) - falsy labels
         # such as 0 included; a sequence of another length cannot fit it
@@ -505,7 +511,7 @@ def choose(rng, c, n, span, op):
     if op == 'item':
         return (rng.choice(names + ['ZZ'] + private[:rng.choice([0, 0, 9])]) if names else rng.choice(['ZZ'] + private)), None
     if op == 'label':
-        return (rng.choice(names + not_variables[:rng.choice([0, 0, 12])]) if names else 'A'), rng.choice(span + [1999])
+        return (rng.choice(names + not_variables[:rng.choice([0, 0, 12])]) if names else 'A'), rng.choice(span + [1999, span[0] - 1, span[0] - 2, span[-1] + 1] if span else [1999])
     if op == 'lslice':
         return (rng.choice(names + not_variables[:rng.choice([0, 0, 12])]) if names else 'A'), (rng.choice(span + [None]), rng.choice(span + [None]), rng.choice([None, 1, 2]))
     if op == 'add_attr':
